@@ -11,7 +11,8 @@ RULE = ("Source and Load are free-free spring-mass-damper networks (3..8 and 2..
         "graphs, proportional or element-wise random damping > 0) sharing 1..3 interface DOF; the boundary is "
         "given as (a) a recovery matrix on the physical model or on its modal form (m=I, k=diag, b full, "
         "bdof = rows of the mode shapes) or (b) a partition vector on the Craig-Bampton form produced by an "
-        "own CB transformation with all modes kept; 2..15 frequencies log-uniform over the band of the modes "
+        "own CB transformation with all modes kept, its DOF b-first or in a random order (partition vector then "
+        "non-contiguous and non-ascending); 2..15 frequencies log-uniform over the band of the modes "
         "plus near-resonance points; complex external forces on random source DOF.  Oracle: dense complex "
         "solve of the physically coupled system assembled by the check (shared interface DOF merged): "
         "interface acceleration and force transmitted to the Load; free acceleration from the Source alone; "
@@ -20,6 +21,7 @@ RULE = ("Source and Load are free-free spring-mass-damper networks (3..8 and 2..
         "DOF), exactly at 0 Hz on the cbtf route.  Non-trivial: >= 2 interface DOF or non-proportional damping.")
 ASSUME = ["numpy dense complex solves as reference", "scalar (1-D translation) networks: one rigid-body mode"]
 KNOWN = {}
+REQUIRED_CLASSES = {"thorough": ["ntfl:bdofS:unordered", "ntfl:bdofL:unordered"]}
 EPS = util.EPS
 CTOL = 1000.0
 
@@ -122,7 +124,7 @@ def oracle(case, R):
                      np.linalg.cond(Hs[:, j, :]), np.linalg.cond(Hl[:, j, :]),
                      np.linalg.cond(la.inv(Hs[:, j, :]) + la.inv(Hl[:, j, :])))
 
-    def hand(M, C, K, b, form):
+    def hand(M, C, K, b, form, perm_seed=None):
         if form == "drm":
             T = np.zeros((len(b), M.shape[0]))
             for r_, i in enumerate(b):
@@ -132,13 +134,23 @@ def oracle(case, R):
             m_, c_, k_, T = modal_form(M, C, K, b)
             return [m_, c_, k_, T]
         m_, c_, k_ = cb_form(M, C, K, b)
-        return [m_, c_, k_, np.arange(len(b))]
+        if perm_seed is None:
+            return [m_, c_, k_, np.arange(len(b))]
+        # the Craig-Bampton model lists its DOF in any order: the partition vector names the position of
+        # each interface DOF (in interface order) and is in general neither contiguous nor ascending
+        perm = util.rng_of(perm_seed).permutation(m_.shape[0])
+        P = np.ix_(perm, perm)
+        return [m_[P], c_[P], k_[P], np.argsort(perm)[:len(b)]]
 
     fS, fL = case["formS"], case["formL"]
-    Source = hand(MS, CS, KS, bS, fS)
-    Load = hand(ML, CL, KL, bL, fL)
+    Source = hand(MS, CS, KS, bS, fS, case["seed"] + 11 if case.get("cbpermS") else None)
+    Load = hand(ML, CL, KL, bL, fL, case["seed"] + 13 if case.get("cbpermL") else None)
     R.label(f"formS={fS}", f"formL={fL}", f"nb={nb}", "propS" if case["propS"] else "nonpropS",
             "propL" if case["propL"] else "nonpropL")
+    for side, mdl in (("S", Source), ("L", Load)):
+        pv = np.asarray(mdl[3])
+        if pv.ndim == 1 and len(pv) > 1:
+            R.label(f"bdof{side}:" + ("ascending" if np.all(np.diff(pv) > 0) else "unordered"))
     R.nontrivial(nb >= 2 or not case["propS"] or not case["propL"])
     out = frclim.ntfl(Source, Load, As, freq)
     tol = CTOL * EPS * cnd
@@ -207,7 +219,8 @@ def cases(draw):
             "propS": draw(st.booleans()), "propL": draw(st.booleans()),
             "zeta": draw(st.sampled_from([0.01, 0.05, 0.2])), "freq": freq, "nforce": draw(st.integers(1, 3)),
             "formS": draw(st.sampled_from(["drm", "modal", "cb"])),
-            "formL": draw(st.sampled_from(["drm", "modal", "cb"]))}
+            "formL": draw(st.sampled_from(["drm", "modal", "cb"])),
+            "cbpermS": draw(st.booleans()), "cbpermL": draw(st.booleans())}
 
 
 PARTS = [
